@@ -701,6 +701,33 @@ where
         }
     }
 
+    /// Forgets a connection that was announced through `handle_established_*_connection` but
+    /// was never established, e.g. because another behaviour denied it, and fails the requests
+    /// that had been handed to its handler.
+    fn on_connection_not_established(&mut self, connection_id: ConnectionId) {
+        let Some((peer, connection)) = self.connected.iter_mut().find_map(|(peer, connections)| {
+            connections
+                .iter()
+                .position(|c| c.id == connection_id)
+                .map(|p| (*peer, connections.remove(p)))
+        }) else {
+            return;
+        };
+        if self.connected.get(&peer).is_some_and(|c| c.is_empty()) {
+            self.connected.remove(&peer);
+        }
+
+        for request_id in connection.pending_outbound_responses {
+            self.pending_events
+                .push_back(ToSwarm::GenerateEvent(Event::OutboundFailure {
+                    peer,
+                    connection_id,
+                    request_id,
+                    error: OutboundFailure::DialFailure,
+                }));
+        }
+    }
+
     fn on_dial_failure(
         &mut self,
         DialFailure {
@@ -709,6 +736,8 @@ where
             error,
         }: DialFailure,
     ) {
+        self.on_connection_not_established(connection_id);
+
         if let DialError::DialPeerConditionFalse(_) = error {
             // Dial-condition fails because there is already another ongoing dial.
             return;
@@ -842,6 +871,9 @@ where
             }
             FromSwarm::AddressChange(address_change) => self.on_address_change(address_change),
             FromSwarm::DialFailure(dial_failure) => self.on_dial_failure(dial_failure),
+            FromSwarm::ListenFailure(listen_failure) => {
+                self.on_connection_not_established(listen_failure.connection_id)
+            }
             _ => {}
         }
     }
